@@ -142,6 +142,48 @@ def gen_random(scn, rng, depth):
     return hist
 
 
+def gen_servers(scn, rng, depth):
+    """Focused L2 histories on the server life cycle: instances placed, then a
+    small alphabet of server events - presence lost / re-registered with another
+    capacity profile, administrator state changes (frozen/up/down), partition
+    change, clock - with cycles in between."""
+    napps = rng.randrange(2, len(scn['apps']) + 1)
+    hist = [('CreateApp', [scn['apps'][j], rng.randrange(len(scn['aprofiles'])) + 1])
+            for j in range(napps)]
+    hist.append(('Cycle', []))
+    servers = sorted(s for s, k in scn['server_init'].items() if k)
+    up = set(servers)
+    for _ in range(depth):
+        r = rng.random()
+        s = rng.choice(servers)
+        if r < 0.22:
+            hist.append(('Cycle', []))
+        elif r < 0.42:
+            if s in up:
+                hist.append(('NodeDown', [s]))
+                up.discard(s)
+            else:
+                hist.append(('NodeUp', [s, rng.randrange(len(scn['sprofiles'])) + 1]))
+                up.add(s)
+        elif r < 0.55 and s in up:
+            # re-registration (reboot) with possibly different capacity
+            hist.append(('NodeDown', [s]))
+            hist.append(('NodeUp', [s, rng.randrange(len(scn['sprofiles'])) + 1]))
+        elif r < 0.72:
+            st = rng.choice(['frozen', 'frozen', 'up', 'down'])
+            marked = [a for a in scn['apps'][:napps] if rng.random() < 0.3] if st == 'frozen' else []
+            hist.append(('ServerState', [s, st, marked]))
+        elif r < 0.90:
+            hist.append(('Tick', [rng.choice([1, 2, 3, 6])]))
+        elif r < 0.95:
+            hist.append(('SetPartition', [s, rng.choice(['_default', 'pB'])]))
+        else:
+            hist.append(('Restart', []))
+    hist.append(('Cycle', []))
+    hist.append(('Restart', []))
+    return hist
+
+
 def gen_identity(scn, rng, depth):
     """Focused L2 histories: instances of one identity group come and go while
     the group is resized, with cycles and restarts in between (small alphabet,
